@@ -10,3 +10,7 @@ import Lace.Props.C10Big
 #print axioms Lace.C10.cmd_stepInto
 #print axioms Lace.C10.cmd_refused_at_halt
 #print axioms Lace.C10.stepInto_exact
+#print axioms Lace.C10.run_exact
+#print axioms Lace.C10.continue_exact
+#print axioms Lace.C10.stepOver_exact
+#print axioms Lace.C10.stepOut_exact
